@@ -188,10 +188,10 @@ DEEP_KINDS = ["file.blocks", "block.data_arrays", "section.sections@1"]
 def BOUNDS(tier):
     if tier == "quick":
         return {"kinds": len(KINDS), "names": 5, "depth": 3, "deep_kinds": {"names": 4, "depth": 4},
-                "handle_patterns": "single handle; two alternating handles (AB) for link lists and 5 owned kinds",
+                "handle_patterns": "single handle; two alternating handles (AB) and a passive second handle that only looks (AAA) for link lists and 5 owned kinds",
                 "delete_modes": ["name", "id", "idx", "negidx", "obj"]}
     return {"kinds": len(KINDS), "names": 12, "depth": 3, "depth4_names": 4, "deep_kinds": {"names": 4, "depth": 5},
-            "handle_patterns": "single; AB and AAB (5 names, depth 3); AB (4 names, depth 4) for link lists and 5 owned kinds",
+            "handle_patterns": "single; AB, AAB and a passive second handle AAA (5 names, depth 3); AB (4 names, depth 4) for link lists and 5 owned kinds",
             "delete_modes": ["name", "id", "idx", "negidx", "obj"]}
 
 
@@ -240,6 +240,9 @@ def cases(tier):
             for hp in pats:
                 if hp is not None and len(h) < 2:
                     continue
+                if hp == "AAA" and not any(h[i][0] == "delete" and any(o[0] == "create" for o in h[i + 1:])
+                                           for i in range(len(h))):
+                    continue     # a passive second handle matters when members come back after a delete
                 out.append({"kind": kind, "names": names, "ops": h, "hp": hp})
             # 'quiet' variant: no lookups between a delete and the following operation (a lookup would
             # refresh per-handle state and hide stale caches); only for histories where that matters
@@ -249,14 +252,14 @@ def cases(tier):
     for kind in KINDS:
         ab = KINDS[kind]["link"] or kind in AB_KINDS
         if tier == "quick":
-            add(kind, NAMES_Q, 3, [None] + (["AB"] if ab else []))
+            add(kind, NAMES_Q, 3, [None] + (["AB", "AAA"] if ab else []))
             if kind in DEEP_KINDS:
                 add(kind, N4, 4, [None], minlen=4)
         else:
             add(kind, NAMES_T, 3, [None])
             add(kind, N4, 4, [None], minlen=4)
             if ab:
-                add(kind, NAMES_Q, 3, ["AB", "AAB"])
+                add(kind, NAMES_Q, 3, ["AB", "AAB", "AAA"])
                 add(kind, N4, 4, ["AB"], minlen=4)
             if kind in DEEP_KINDS:
                 add(kind, N4, 5, [None], minlen=5)
